@@ -28,6 +28,7 @@ KPModel
     .system_kwargs(nder)        kwargs of SystemKP with the first `nder` analytic derivatives supplied
     .make_system(nder, **kw)    the SystemKP itself
     .describe()                 small dict for witnesses
+    .sparse                     True if random_kp dropped monomials (model not generic: results may vanish by structure)
     .small_box                  True if the box is in the domain where the pre-62efcc4b shell search failed
 wrap_k(kred)                    module-level alias of KPModel.wrap
 random_k_in_box(rng, n, margin, shifts) -> (n,3) reduced k-points with |k_i| <= 1/2 - margin (+ optional integer shifts)
@@ -69,6 +70,7 @@ class KPModel:
         self.trig = [(np.array(A, dtype=complex), np.array(q, dtype=float), float(phi)) for A, q, phi in trig]
         self.ntrig = len(self.trig)
         self.finite_diff_dk = float(finite_diff_dk)
+        self.sparse = False   # set by random_kp: some monomials were dropped (quantities may vanish by structure)
         # x -> cartesian:  k_cart = x @ B ;  d/dk_c = sum_i J[c,i] d/dx_i
         self.B = np.eye(3) if convention == "cart" else self.recip_lattice.copy()
         self.J = np.linalg.inv(self.B)
@@ -201,7 +203,7 @@ class KPModel:
         return bool(h < (H_OLD_FAIL_CUBIC if self.box == "kmax" else H_OLD_FAIL_NONCUBIC))
 
     def describe(self):
-        return dict(nb=self.nb, degree=self.degree, convention=self.convention, box=self.box, ntrig=self.ntrig,
+        return dict(nb=self.nb, degree=self.degree, sparse=self.sparse, convention=self.convention, box=self.box, ntrig=self.ntrig,
                     finite_diff_dk=self.finite_diff_dk, recip_lattice=self.recip_lattice,
                     nmono=len(self.exponents))
 
@@ -260,7 +262,7 @@ def random_kp(rng, nb=None, degree=None, convention=None, box=None, trig=None, d
     if nb is None:
         nb = int(rng.integers(1, 5))
     if degree is None:
-        degree = int(rng.choice([1, 2, 3], p=[0.15, 0.25, 0.6]))
+        degree = int(rng.choice([1, 2, 3], p=[0.1, 0.2, 0.7]))
     if convention is None:
         convention = ["cart", "red"][int(rng.integers(2))]
     if box is None:
@@ -271,7 +273,7 @@ def random_kp(rng, nb=None, degree=None, convention=None, box=None, trig=None, d
     if dk is None:
         dk = 1e-4 if rng.random() < 0.4 else float(10 ** rng.uniform(-4.5, -2.7))
     if sparse is None:
-        sparse = rng.random() < 0.2
+        sparse = rng.random() < 0.15
     bx = random_box(rng, box, dk) if boxpar is None else dict(boxpar)
     tmp = KPModel(np.zeros((1, 1, 1)), np.zeros((1, 3), dtype=int), convention=convention, box=box,
                   kmax=bx.get("kmax"), real_lattice=bx.get("real_lattice"), recip_lattice=bx.get("recip_lattice"))
@@ -296,9 +298,11 @@ def random_kp(rng, nb=None, degree=None, convention=None, box=None, trig=None, d
         q = rng.normal(size=3)
         q *= rng.uniform(1.0, 2.5) / np.abs(q * xmax).sum()
         trigs.append((_herm(rng, nb, rng.uniform(0.3, 1.0)), q, rng.uniform(0, 2 * np.pi)))
-    return KPModel(coefs, exps, convention=convention, box=box, kmax=bx.get("kmax"),
-                   real_lattice=bx.get("real_lattice"), recip_lattice=bx.get("recip_lattice"), trig=trigs,
-                   finite_diff_dk=dk)
+    model = KPModel(coefs, exps, convention=convention, box=box, kmax=bx.get("kmax"),
+                    real_lattice=bx.get("real_lattice"), recip_lattice=bx.get("recip_lattice"), trig=trigs,
+                    finite_diff_dk=dk)
+    model.sparse = bool(sparse)
+    return model
 
 
 def wrap_k(kred):
